@@ -236,6 +236,23 @@ def print_assumptions(prop_vfile, timeout=900):
     return rc == 0, n_closed, axioms, out
 
 
+def coqchk(prop_vfiles, timeout=3000):
+    """Independent re-check (coqchk) of the compiled property files and everything they depend on.
+    Returns (ok, summary dict, raw tail)."""
+    mods = ["Mkdb." + f[:-2].replace("/", ".") for f in prop_vfiles]
+    with open(os.path.join(VERIF, "build", "coq.lock"), "w") as lk:
+        fcntl.flock(lk, fcntl.LOCK_EX)
+        rc, out = sh(["timeout", str(timeout), "coqchk", "-silent", "-o", "-R", ".", "Mkdb"] + mods, cwd=COQ, timeout=timeout + 60)
+    summ = {}
+    for key, label in (("axioms", "Axioms"), ("type_in_type", "Constants/Inductives relying on type-in-type"),
+                       ("unsafe_fixpoints", "Constants/Inductives relying on unsafe (co)fixpoints"),
+                       ("assumed_positivity", "Inductives whose positivity is assumed")):
+        m = re.search(r"\* %s:(.*?)(?=\n\* |\Z)" % re.escape(label), out, re.S)
+        summ[key] = " ".join(m.group(1).split()) if m else "?"
+    ok = rc == 0 and all(v == "<none>" for v in summ.values())
+    return ok, summ, out[-1500:]
+
+
 def count_print_assumptions(prop_vfile):
     txt = strip_comments(open(os.path.join(COQ, prop_vfile)).read())
     return len(re.findall(r"Print\s+Assumptions", txt))
